@@ -341,6 +341,14 @@ def reference(case, eager_at=()):
         # the program ended by an exception after the head was committed
         if bodiless(committed["status"]) or method == "HEAD":
             exp.alts = [normal(b"")]
+            if buf and method != "HEAD":
+                # the error path finishes the request, i.e. flushes the buffered body onto the committed
+                # bodiless head: rejected exactly like an explicit flush()/finish() there (see
+                # "flushed-body-on-bodiless-status" below) -> the connection is aborted, and what the peer
+                # holds by then is a prefix of the bodiless response
+                exp.body_on_bodiless = True
+                exp.notes.add("flushed-body-on-bodiless-status")
+                exp.abort_ok = True
         else:
             exp.alts = [normal(sent + buf), normal(sent)]
         if cl_limit() is not None and cl_limit() != len(sent + buf):
